@@ -4,7 +4,7 @@ import itertools
 
 OPS = ("Select", "Where", "SelectMany", "sel")  # sel = a wrapper method that forwards its argument to Select
 PARAMS = ("e", "f")
-STYLES = ("one", "brk", "par", "cmt", "str", "nest", "fstr", "coll", "fstr0", "fstr1")
+STYLES = ("one", "brk", "par", "cmt", "str", "nest", "fstr", "coll", "fstr0", "fstr1", "uni")
 
 
 def lam(p, k, op, style):
@@ -20,6 +20,9 @@ def lam(p, k, op, style):
         return f"lambda {p}: {p}.m{k}{cmp_}  # a comment ) with lambda x: x, and (\n\t"
     if style == "str":
         return f"lambda {p}: {p}.m{k}.s('a)b, lambda z: z('){cmp_}"
+    if style == "uni":
+        # characters that take several bytes in utf-8 (python counts code columns in bytes, the tokenizer in characters)
+        return f"lambda {p}: {p}.m{k}.s('\u00e9\u221a\U0001f600'){cmp_}"
     if style == "fstr":
         return f"lambda {p}: {p}.m{k}.s(f\"({{{p}.x}}),{{{p}.y}}\"){cmp_}"
     if style == "fstr0":
@@ -133,6 +136,8 @@ def enumerate_named_functions(contexts=("module", "def", "method")):
         "defdoc": "def {n}({p}):\n\t    'a doc string with lambda z: z and )'\n\t    return {p}.m{k}{c}",
         "defcmt": "def {n}({p}):  # lambda q: q.n9 )\n\t    return {p}.m{k}{c}",
         "lam": "{n} = lambda {p}: {p}.m{k}{c}",
+        # a decorated function is not the function it wraps (functools.wraps makes inspect follow __wrapped__)
+        "wrapped": "def {n}_inner({p}): return {p}.m{k}\n\t@__import__('functools').wraps({n}_inner)\n\tdef {n}({p}): return {n}_inner({p}).w{k}{c}",
         # a multi-line string whose continuation lines are indented less than the def (they are data, not code)
         "defstr": "def {n}({p}):\n\t    return {p}.m{k}.s(\"\"\"a\n  bcdefghijkl\nxyzuvwrstq\"\"\"){c}",
     }
@@ -186,6 +191,9 @@ def enumerate_one_call_with_neighbours(ops=OPS[:3], params=PARAMS, styles=("one"
                         "stmt-after": f"q = ds.{op}({body}); {nm} = q; r = {nm}",
                         "stmt-before": f"{nm} = ds; r = {nm}.{op}({body})",
                         "attr-after": f"r = ds.{op}({body}).keep({p!r}).{nm}(1)",
+                        "nonascii-before": f"{nm} = '\u00e9\u221a\U0001f600'; r = ds.{op}({body})",
+                        "nonascii-arg": f"r = ds.keep('\u00fc\u00fc {nm}').{op}({body})",
+                        "nonascii-long": f"r = ds.keep('{nm} " + "\u221a\U0001f600" * 12 + f"').{op}({body})",
                     }
                     for shape, stmt in stmts.items():
                         for ctx in ("module", "def", "method"):
